@@ -77,6 +77,10 @@ func (r *Result) Violate(part, class, msg string, c any) {
 	// messages (small witnesses)
 	n, longest := 0, -1
 	for i, v := range r.Violations {
+		if v.Class == class && v.Msg == msg {
+			r.Count("violations."+class, 1)
+			return
+		}
 		if v.Class == class {
 			n++
 			if longest < 0 || len(v.Msg) > len(r.Violations[longest].Msg) {
@@ -120,6 +124,16 @@ func (r *Result) Merge(o *Result) {
 		}
 	}
 	for _, v := range o.Violations {
+		dup := false
+		for _, w := range r.Violations {
+			if w.Class == v.Class && w.Msg == v.Msg {
+				dup = true
+				break
+			}
+		}
+		if dup {
+			continue
+		}
 		n, longest := 0, -1
 		for i, w := range r.Violations {
 			if w.Class == v.Class {
